@@ -89,7 +89,8 @@ def holds : Pc → Bool
   | .cuWeakKeys _ | .cuWeakChk _ _ | .cuWeakPop _ _ _ _ | .cuStrongKeys _ | .cuStrongGet _ _ _ | .cuStrongDel _ _ _ _
   | .cuWeakSet _ _ _ _ | .cuRel _ | .cuRelErr => true
   | .idle | .csGet _ | .csSet _ | .ccTest _ | .ccRead _ | .ccWrite _ _ | .ccReset _
-  | .probe _ | .acq _ | .insert _ | .crSet _ _ | .crSelect _ _ | .exAcq _ | .eaAcq | .cuEntry | .cuAcq _
+  | .probeL _ | .probe _ _ | .acq _ | .insert _ | .crSetL _ _ | .crSet _ _ _ | .crSelect _ _ | .exAcq _ | .eaAcq
+  | .cuEntry | .cuAcq _
   | .nProbe _ | .nAcq _ | .eaEntry => false
 
 @[simp] theorem setTh_self (f : Tid → Th) (t : Tid) (v : Th) : setTh f t v t = v := by simp [setTh]
@@ -256,6 +257,33 @@ theorem cuStrongNext_holds (k : K) (ks : List Id) : holds (cuStrongNext k ks) = 
 @[simp] theorem afterCaches_dc (s : State) (t : Tid) (k : K) : (afterCaches s t k).dc = s.dc := by
   cases k <;> simp only [afterCaches] <;> (try split) <;> simp
 @[simp] theorem releaseFinish_dc (s : State) (t : Tid) (o : Out) : (releaseFinish s t o).dc = s.dc := by
+  unfold releaseFinish; split <;> simp
+@[simp] theorem goto_gen (s : State) (t : Tid) (pc : Pc) : (goto s t pc).gen = s.gen := rfl
+@[simp] theorem finish_gen (s : State) (t : Tid) (o : Out) : (finish s t o).gen = s.gen := by
+  unfold finish; split <;> rfl
+@[simp] theorem afterCC_gen (s : State) (t : Tid) (k : K) : (afterCC s t k).gen = s.gen := by
+  cases k <;> simp [afterCC]
+@[simp] theorem afterCaches_gen (s : State) (t : Tid) (k : K) : (afterCaches s t k).gen = s.gen := by
+  cases k <;> simp only [afterCaches] <;> (try split) <;> simp
+@[simp] theorem releaseFinish_gen (s : State) (t : Tid) (o : Out) : (releaseFinish s t o).gen = s.gen := by
+  unfold releaseFinish; split <;> simp
+@[simp] theorem goto_hold (s : State) (t : Tid) (pc : Pc) : (goto s t pc).hold = s.hold := rfl
+@[simp] theorem finish_hold (s : State) (t : Tid) (o : Out) : (finish s t o).hold = s.hold := by
+  unfold finish; split <;> rfl
+@[simp] theorem afterCC_hold (s : State) (t : Tid) (k : K) : (afterCC s t k).hold = s.hold := by
+  cases k <;> simp [afterCC]
+@[simp] theorem afterCaches_hold (s : State) (t : Tid) (k : K) : (afterCaches s t k).hold = s.hold := by
+  cases k <;> simp only [afterCaches] <;> (try split) <;> simp
+@[simp] theorem releaseFinish_hold (s : State) (t : Tid) (o : Out) : (releaseFinish s t o).hold = s.hold := by
+  unfold releaseFinish; split <;> simp
+@[simp] theorem goto_olds (s : State) (t : Tid) (pc : Pc) : (goto s t pc).olds = s.olds := rfl
+@[simp] theorem finish_olds (s : State) (t : Tid) (o : Out) : (finish s t o).olds = s.olds := by
+  unfold finish; split <;> rfl
+@[simp] theorem afterCC_olds (s : State) (t : Tid) (k : K) : (afterCC s t k).olds = s.olds := by
+  cases k <;> simp [afterCC]
+@[simp] theorem afterCaches_olds (s : State) (t : Tid) (k : K) : (afterCaches s t k).olds = s.olds := by
+  cases k <;> simp only [afterCaches] <;> (try split) <;> simp
+@[simp] theorem releaseFinish_olds (s : State) (t : Tid) (o : Out) : (releaseFinish s t o).olds = s.olds := by
   unfold releaseFinish; split <;> simp
 attribute [simp] afterCC_lock afterCaches_lock
 theorem releaseFinish_th_ne (s : State) (t u : Tid) (o : Out) (h : u ≠ t) : (releaseFinish s t o).th u = s.th u := by
